@@ -237,6 +237,22 @@ func (g *progGen) expr(t *gty, depth int) string {
 				return "(replace " + paren(g.expr(tStr, depth-1)) + " " + paren(g.expr(tStr, depth-1)) + " " + paren(g.expr(tStr, depth-1)) + ")"
 			}
 		case 11:
+			if g.pick(2) == 0 {
+				// sprintf on string / bool operands (number formatting is an oracle of the model)
+				f := []struct {
+					format string
+					kinds  string
+				}{{`"%s-%v"`, "ss"}, {`"[%5s|%-4s]"`, "ss"}, {`"%q %t"`, "sb"}, {`"%v %d"`, "bs"}, {`"%s"`, "ss"}, {`"%s %s"`, "s"}}[g.pick(6)]
+				out := "(sprintf " + f.format
+				for _, k := range f.kinds {
+					if k == 's' {
+						out += " " + paren(g.expr(tStr, depth-1))
+					} else {
+						out += " " + paren(g.expr(tBool, depth-1))
+					}
+				}
+				return out + ")"
+			}
 			return "(join (split " + paren(g.expr(tStr, depth-1)) + " " + paren(g.expr(tStr, depth-1)) + ") " + paren(g.expr(tStr, depth-1)) + ")"
 		case 0, 1:
 			return g.expr(tStr, depth-1) + " + " + g.expr(tStr, depth-1)
